@@ -18,6 +18,10 @@
 (*            (kinds of Kinetics.tla), sdA / sdB site densities, op, the   *)
 (*            value again with every site density times ten (val10),       *)
 (*            sensors ex = exp(x), witnesses x = dS + m, mw = mean         *)
+(*            route "q" (partition-function route): only positivity and the   *)
+(*            site-density power are judged (the property states the entropy  *)
+(*            route); events with handed = TRUE carry the value written by    *)
+(*            SurfaceReaction.to_omkm_yaml instead of the getter's            *)
 (*  raised  : the library raised on a call the property quantifies over    *)
 (* Tolerances: k = 7 for one subtraction / comparison, k = 6 where several *)
 (* multiplications enter (BepRelation, AEntropyRoute, ANoTS).              *)
@@ -94,7 +98,7 @@ AClausesFull(e) ==
        rhs == IF e.route = "entropy" THEN Mul(Mul(e.kb, tfac), e.ex) ELSE Mul(e.kb, tfac)
    IN (IF witness THEN {} ELSE {"WITNESS"})
       \cup (IF e.ok /\ e.val[1] > 0 THEN {} ELSE {"APositive"})
-      \cup (IF ~e.ok \/ ~witness \/ Close(lhs, rhs, 6) THEN {}
+      \cup (IF ~e.ok \/ ~witness \/ e.route = "q" \/ Close(lhs, rhs, 6) THEN {}
             ELSE IF e.route = "entropy" THEN {"AEntropyRoute"} ELSE {"ANoTS"})
       \cup (IF ~e.ok \/ ~e.ok10 \/ Close(Mul(e.val, <<1, pw>>), e.val10, 7) THEN {}
             ELSE {"ASiteDensityPower"})
